@@ -7,7 +7,7 @@
    [no_nan v = true]: no NaN anywhere inside v (the property's "for all non-NaN values").
    Values nest without bound; no theorem has a depth or size bound. *)
 From Coq Require Import Permutation Sorted.
-From BS Require Import Model.Base Model.Num Model.Compare Gen.TypeNames Proofs.C11.
+From BS Require Import Model.Base Model.Num Model.Compare Gen.TypeNames Proofs.C11 Proofs.C11Float.
 Local Open Scope Z_scope.
 
 (* ---- total preorder -------------------------------------------------------------------------- *)
@@ -85,12 +85,20 @@ Theorem C11_spelling_blind : forall tz z f x, sf_exact_Z f = Some z -> no_nan x 
   compare tz x (CNum (NInt z)) = compare tz x (CNum (NFlt f)).
 Proof. exact spelling_blind. Qed.
 Print Assumptions C11_spelling_blind.
-(* full statement wanted:  forall z, |z| <= 2^53 -> sf_exact_Z (Z_to_sf z) = Some z   (float(int) is exact up to 2^53).
-   Proved here only on boundary samples by computation: *)
-Theorem C11_int_to_float_exact_partial :
+(* float(int) is exact up to 2^53: the model's int -> binary64 conversion (SpecFloat's binary_normalize) returns a float
+   denoting the same integer, so by C11_spelling_blind  n  and  float(n)  are interchangeable in every comparison.
+   Proved for ALL such z in Proofs/C11Float.v from Z-only facts about SpecFloat's rounding (Proofs/FloatFacts.v: no real
+   numbers, no axioms).  The bound is sharp (second Example). *)
+Theorem C11_int_to_float_exact : forall z, Z.abs z <= 2 ^ 53 -> sf_exact_Z (Z_to_sf z) = Some z.
+Proof. exact Z_to_sf_exact_upto_2_53. Qed.
+Print Assumptions C11_int_to_float_exact.
+(* non-vacuity / boundary samples by computation (this was the former C11_int_to_float_exact_partial) *)
+Example C11_int_to_float_exact_samples :
   forallb Z_to_sf_exact [0; 1; -1; 2; 3; -7; 255; 1000000; 10 ^ 15; 10 ^ 15 + 1; 2 ^ 52 + 1; 2 ^ 53 - 1; 2 ^ 53; - (2 ^ 53); 1 - 2 ^ 53;
                          2 ^ 53 + 2; 2 ^ 60; 2 ^ 1023; 3 * 2 ^ 100] = true.
 Proof. exact Z_to_sf_exact_samples. Qed.
+Example C11_int_to_float_inexact_beyond : sf_exact_Z (Z_to_sf (2 ^ 53 + 1)) <> Some (2 ^ 53 + 1).
+Proof. exact Z_to_sf_first_inexact. Qed.
 
 (* ---- relational operators --------------------------------------------------------------------------- *)
 Theorem C11_relops : forall tz op a b,
